@@ -592,7 +592,7 @@ func (g *G) genC10(p *Plan) {
 		// another key or bucket must not touch the upload
 		b0 := c.Buckets[0]
 		other := c.Buckets[len(c.Buckets)-1]
-		mp := []Op{{K: "mpu-init", B: b0, Key: "victim"}, {K: "mpu-part", Up: 0, Part: 1, Body: g.body(9)}}
+		mp := []Op{{K: "mpu-init", B: b0, Key: "mpvictim"}, {K: "mpu-part", Up: 0, Part: 1, Body: g.body(9)}}
 		for i, n := 0, g.n(1, 4); i < n; i++ {
 			k := g.pick("dir/obj", "a/b", "victim2", "victi")
 			switch g.rng.Intn(4) {
